@@ -152,8 +152,29 @@ class _WriteScan(ast.NodeVisitor):
                     k = _live_kind(v, self.aliases, self)
                     if k:
                         self.aliases[name] = k
+        # position-sensitive refinement: a use of an alias name counts only if the nearest preceding binding
+        # of that name (by line) binds it to a live structure — `tids = []` ... `tids.append(x)` is not a write
+        # even if the same name is later rebound to `tn.ind_map[ind]`
+        self.bind_lines = {}
+        for name, vals in binds.items():
+            self.bind_lines[name] = sorted((v.lineno, _live_kind(v, self.aliases, self)) for v in vals)
+        all_aliases = dict(self.aliases)
         for n in ast.walk(self.fnode):
+            line = getattr(n, "lineno", None)
+            if line is not None:
+                cur = {}
+                for name, k in all_aliases.items():
+                    bl = self.bind_lines.get(name)
+                    if not bl:
+                        cur[name] = k
+                        continue
+                    prev = [kk for ln, kk in bl if ln <= line]
+                    kk = prev[-1] if prev else bl[0][1]
+                    if kk:
+                        cur[name] = kk
+                self.aliases = cur
             self.visit_one(n)
+        self.aliases = all_aliases
         return self.writes
 
     def add(self, k, node, what):
